@@ -51,12 +51,26 @@ func readSweep(r *RunCtx, seg segment.Segment, cn *Canon, ops []rop, want []stri
 
 func refHistories(r *RunCtx) {
 	c := r.ch
-	w := newWorldBadSyn(r, c.Choose(3, "cfg.syn") == 0)
+	w := newWorldBadSyn(r, c.Choose(3, "cfg.syn") == 0, vectorsBuild)
 	defer w.CloseAll()
+	engineQuiesce()
+	live0 := engineLive()
 	spec := genBatch(c, w.Cfg, 1+c.Choose(20, "ref.ndocs"), w.Cfg.IDSpace)
 	mem := w.Build(spec, nil)
 	mem.Canon = w.extract(mem.Seg, "built segment")
 	w.Add(mem)
+	// vectors build: the caches a segment gives up with its last reference include
+	// the native vector indexes it loaded for searches
+	checkEngine := func(where string) {
+		if !vectorsBuild {
+			return
+		}
+		engineQuiesce()
+		if l := engineLive(); l > live0 {
+			r.fail("C20.leak", "vectorIndexCache", "%s: %d native vector indexes of the segment's cache are still alive (before the segment existed: %d)", where, l, live0)
+		}
+		r.count("probe.ref.engine-indexes-checked-after-release")
+	}
 
 	if c.Prob(1, 8, "ref.inmemory") {
 		// closing an in-memory segment is harmless
@@ -69,6 +83,7 @@ func refHistories(r *RunCtx) {
 			r.fail("C20.release-error", "SegmentBase.Close", "Close on an in-memory segment: %v", err)
 		}
 		mem.Seg = nil
+		checkEngine("after closing the in-memory segment")
 		r.ev("in-memory close")
 		r.count("op.memclose")
 		return
@@ -86,6 +101,12 @@ func refHistories(r *RunCtx) {
 		r.fail("harness", "Open", "opened segment is %T", opened.Seg)
 	}
 	path := opened.Path
+	// vectors build: make the opened segment load (and cache) its vector indexes
+	if n, err := loadVectorCaches(w, opened.Seg); err != nil {
+		r.fail("C20.read", "InterpretVectorIndex", "vector search on the opened segment: %v", err)
+	} else {
+		r.countN("probe.ref.vector-index-cached", n)
+	}
 	released := false
 	defer func() {
 		if !released {
@@ -326,6 +347,12 @@ func refHistories(r *RunCtx) {
 	if got := zap.VerifSegmentRefs(ps); got != 0 {
 		r.fail("C20.counter", "Segment.refs", "after the last release the segment holds %d references", got)
 	}
+	if mem.Seg != nil {
+		// (the in-memory twin has a cache of its own)
+		mem.Seg.Close()
+		mem.Seg = nil
+	}
+	checkEngine("after the last reference was dropped")
 	r.Sample["ops"] = r.Events
 }
 
